@@ -86,3 +86,18 @@ pub open spec fn listed_or_saved<BE: DecryptWriteBackend>(o: Indexer<BE>, n: Ind
     ||| (n.file.packs@ == packs && n.file.packs_to_delete@ == marked)
     ||| (INDEX_SAVED(packs, marked) && n.file.packs@.len() == 0 && n.file.packs_to_delete@.len() == 0)
 }
+
+// ---- the second and third 'already there' filters of the packer thread ----
+// the raw packer behind its RwLock: the ids of the blobs in the pack that is currently being filled
+// (RawPacker::has is a unit of C08: membership in the open pack's index entry)
+pub struct VRawPackerF { pub open: Ghost<Set<BlobId>> }
+impl VRawPackerF {
+    #[verifier::external_body]
+    pub fn has(&self, id: &BlobId) -> (r: bool) ensures r == self.open@.contains(*id), { unimplemented!() }
+}
+pub struct VRawPackerLockF { pub inner: VRawPackerF }
+impl VRawPackerLockF {
+    #[verifier::external_body]
+    pub fn vread(&self) -> (r: &VRawPackerF) ensures *r == self.inner, { unimplemented!() }
+}
+pub struct VProcessedF { pub _opaque: u64 }
